@@ -47,7 +47,7 @@ func PoolAPI(p *core.Prog, r *core.Report) {
 		})
 	}
 	r.Count("raw_pool_calls", nGP)
-	r.Floor("raw_pool_calls", 30)
+	r.Floor("raw_pool_calls", 20)
 
 	// (b)(c) callers of the redeem functions and of (*T).redeem
 	nRedeemSites := 0
@@ -131,7 +131,7 @@ func PoolAPI(p *core.Prog, r *core.Report) {
 		})
 	}
 	r.Count("redeem_call_sites", nRedeemSites)
-	r.Floor("redeem_call_sites", 40)
+	r.Floor("redeem_call_sites", 30)
 
 	// (d) resetPools only during initialisation
 	if rp := p.Func("resetPools"); rp != nil {
@@ -399,7 +399,7 @@ func emptyImmutable(p *core.Prog, r *core.Report, pi *poolInfo) {
 		}
 	}
 	r.Count("exported_result_returners", nAPI)
-	r.Floor("exported_result_returners", 5)
+	r.Floor("exported_result_returners", 4)
 	r.Count("may_return_empty_funcs", len(names))
 	r.Floor("may_return_empty_funcs", 1)
 	n, bad := 0, 0
@@ -505,5 +505,5 @@ func deferInit(p *core.Prog, r *core.Report, pi *poolInfo) {
 		})
 	}
 	r.Count("deferred_release_sites", n)
-	r.Floor("deferred_release_sites", 3)
+	r.Floor("deferred_release_sites", 2)
 }
